@@ -278,19 +278,32 @@ Definition root_spans (t : str) (recs : list span) : list span :=
   filter (fun s => of_trace t s && is_empty (sp_parent s)) recs.
 
 (* query 1: "<text> | stats count(*) BY trace_id": the buckets are the distinct trace ids;
-   [buckets] is their order as the engine returns it; GetUniqueTraceIds slices one page *)
+   [buckets] is their order as the engine returns it (it differs from request to request);
+   GetUniqueTraceIds sorts the buckets by trace id (sort.SliceStable, Go string order) and slices
+   one page *)
 Definition distinct_traces (recs : list span) : list str := dedup_by str_eqb (map sp_trace recs).
-Definition page_ids (buckets : list str) (page : nat) : list str :=
-  firstn TRACE_PAGE_LIMIT (skipn ((page - 1) * TRACE_PAGE_LIMIT) buckets).
+Fixpoint str_insert (x : str) (l : list str) : list str :=
+  match l with
+  | [] => [x]
+  | y :: r => if str_ltb x y then x :: l else y :: str_insert x r
+  end.
+Definition str_sort (l : list str) : list str := fold_right str_insert [] l.
+(* the slice [(page-1)*50 : min(page*50, n)] of a sequence *)
+Definition page_slice (ids : list str) (page : nat) : list str :=
+  firstn TRACE_PAGE_LIMIT (skipn ((page - 1) * TRACE_PAGE_LIMIT) ids).
+Definition page_ids (buckets : list str) (page : nat) : list str := page_slice (str_sort buckets) page.
 
 Inductive root_info :=
 | RNone                       (* no span with parent_span_id="" : no bucket in query 2 *)
-| RAbort                      (* values(start_time) or values(end_time) has several elements: HTTP 500 *)
-| RSkip                       (* outside the window, or several root services / operations *)
+| RAbort                      (* only in the pre-fix model: several root start / end times: HTTP 500 *)
+| RSkip                       (* outside the window, or several root start / end times / services / operations *)
 | ROk (st en : N) (svc nm : str).
 
-(* query 2: values(start_time), values(end_time), values(name), values(service) of the root spans *)
-Definition root_info_of (winS winE : N) (recs : list span) (t : str) : root_info :=
+(* query 2: values(start_time), values(end_time), values(name), values(service) of the root spans;
+   [multi] = the answer for a trace whose roots have several start or end times: the trace is left
+   out (RSkip) like one with several root services / operations; before the fix the handler answered
+   HTTP 500 for the whole page (RAbort) *)
+Definition root_info_gen (multi : root_info) (winS winE : N) (recs : list span) (t : str) : root_info :=
   let rs := root_spans t recs in
   match rs with
   | [] => RNone
@@ -302,9 +315,10 @@ Definition root_info_of (winS winE : N) (recs : list span) (t : str) : root_info
       | [svc], [nm] => ROk st en svc nm
       | _, _ => RSkip
       end
-    | _, _ => RAbort
+    | _, _ => multi
     end
   end.
+Definition root_info_of := root_info_gen RSkip.
 
 Definition count_if {A} (f : A -> bool) (l : list A) : N := N.of_nat (length (filter f l)).
 
@@ -316,17 +330,24 @@ Definition summarise (winS winE : N) (recs : list span) (t : str) : list trace_s
   | _ => []
   end.
 
-Definition aborts (winS winE : N) (recs : list span) (t : str) : bool :=
-  match root_info_of winS winE recs t with RAbort => true | _ => false end.
-
-(* None = HTTP 500 ("Invalid startTime/endTime"); the listed traces are compared as a set *)
-Definition search_page (winS winE : N) (recs : list span) (ids : list str) : option (list trace_summary) :=
-  if existsb (aborts winS winE recs) ids then None
-  else Some (flat_map (summarise winS winE recs) ids).
+(* the answer of one page request; the listed traces are compared as a set *)
+Definition search_page (winS winE : N) (recs : list span) (ids : list str) : list trace_summary :=
+  flat_map (summarise winS winE recs) ids.
 
 Definition search_traces (winS winE : N) (recs : list span) (buckets : list str) (page : nat)
-  : option (list trace_summary) :=
+  : list trace_summary :=
   search_page winS winE recs (page_ids buckets page).
+
+(* ---- PRE-FIX model (documentation: the two repaired search defects) ----
+   the buckets were sliced in the order of the response, and a trace whose root spans have several
+   start or end times made the handler answer HTTP 500 (None) *)
+Definition aborts_prefix (winS winE : N) (recs : list span) (t : str) : bool :=
+  match root_info_gen RAbort winS winE recs t with RAbort => true | _ => false end.
+Definition search_traces_prefix (winS winE : N) (recs : list span) (buckets : list str) (page : nat)
+  : option (list trace_summary) :=
+  let ids := page_slice buckets page in
+  if existsb (aborts_prefix winS winE recs) ids then None
+  else Some (flat_map (summarise winS winE recs) ids).
 
 (* specification: the traces a search lists (single-valued root attributes, root inside the window) *)
 Definition listable (winS winE : N) (recs : list span) (t : str) : bool :=
@@ -335,7 +356,13 @@ Definition listable (winS winE : N) (recs : list span) (t : str) : bool :=
 (* ------------------------------------------------------------------ *)
 (* service dependency graph (MakeTracesDependancyGraph)                *)
 (* ------------------------------------------------------------------ *)
-Definition DEFAULT_PAGE : nat := 100.   (* ParseSearchBody: size absent -> 100 rows *)
+Definition DEFAULT_PAGE : nat := 100.   (* ParseSearchBody: size absent -> 100 rows (pre-fix model only) *)
+
+(* spanKey{traceID, spanID}: a Go struct used as map key (equal iff both fields are equal),
+   modelled by an injective encoding into one string *)
+Definition skey (t i : str) : str := N.of_nat (length t) :: t ++ i.
+Definition span_key (s : span) : str := skey (sp_trace s) (sp_id s).
+Definition parent_key (s : span) : str := skey (sp_trace s) (sp_parent s).
 
 Definition pair_eqb (a b : str * str) : bool := str_eqb (fst a) (fst b) && str_eqb (snd a) (snd b).
 Fixpoint incr (k : str * str) (m : list ((str * str) * N)) : list ((str * str) * N) :=
@@ -349,21 +376,28 @@ Fixpoint dep_count (m : list ((str * str) * N)) (k : str * str) : N :=
   | (k', v) :: r => if pair_eqb k' k then v else dep_count r k
   end.
 
-Definition svc_map (recs : list span) : list (str * str) :=
-  fold_left (fun m s => insert (sp_id s) (sp_service s) m) recs [].
+(* [kf]: the key a span is stored under; [pk]: the key its parent is looked up with *)
+Definition svc_map_by (kf : span -> str) (recs : list span) : list (str * str) :=
+  fold_left (fun m s => insert (kf s) (sp_service s) m) recs [].
+Definition svc_map : list span -> list (str * str) := svc_map_by span_key.
 
-Definition dep_step (svc : list (str * str)) (mat : list ((str * str) * N)) (s : span) :=
+Definition dep_step_by (pk : span -> str) (svc : list (str * str)) (mat : list ((str * str) * N)) (s : span) :=
   if is_empty (sp_parent s) then mat else
-  match lookup (sp_parent s) svc with
+  match lookup (pk s) svc with
   | None => mat
   | Some ps => if str_eqb ps (sp_service s) then mat else incr (ps, sp_service s) mat
   end.
 
-(* [recs] = all spans of the window in the order the engine returns them; only the first
-   [page] rows reach the handler *)
-Definition dep_graph (page : nat) (recs : list span) : list ((str * str) * N) :=
+(* [recs] = all spans of the window: the handler pages through the result (from = 0, 1000, ...
+   until a page is empty) and looks every parent up within the span's own trace *)
+Definition dep_graph (recs : list span) : list ((str * str) * N) :=
+  fold_left (dep_step_by parent_key (svc_map recs)) recs [].
+
+(* PRE-FIX model (documentation): one request without size, i.e. the first [page] rows in the
+   order the engine returns them, and spans joined to parents by span id alone *)
+Definition dep_graph_prefix (page : nat) (recs : list span) : list ((str * str) * N) :=
   let pg := firstn page recs in
-  fold_left (dep_step (svc_map pg)) pg [].
+  fold_left (dep_step_by sp_parent (svc_map_by sp_id pg)) pg [].
 
 (* specification: the number of (child, parent) pairs of records OF ONE TRACE where the parent's span
    id is the child's parent id, the parent is in service a and the child in service b *)
@@ -374,10 +408,6 @@ Definition is_cross (a b : str) (cp : span * span) : bool :=
   && str_eqb (sp_service p) a && str_eqb (sp_service c) b.
 Definition cross_pairs (recs : list span) (a b : str) : N :=
   count_if (is_cross a b) (list_prod recs recs).
-(* guard: a parent id never names a span of another trace *)
-Definition same_trace_parents (recs : list span) : bool :=
-  forallb (fun c => forallb (fun p => negb (str_eqb (sp_id p) (sp_parent c)) || str_eqb (sp_trace p) (sp_trace c)) recs) recs.
-
 (* ------------------------------------------------------------------ *)
 (* quick-select and percentiles (lineartimefinding.go, T = uint64)     *)
 (* ------------------------------------------------------------------ *)
@@ -491,7 +521,7 @@ Definition find_percentile_x100 (arr : list N) (pct : nat) : option N :=
    different service *)
 Definition is_entry (svc : list (str * str)) (s : span) : bool :=
   if is_empty (sp_parent s) then true else
-  match lookup (sp_parent s) svc with
+  match lookup (parent_key s) svc with
   | Some ps => negb (str_eqb ps (sp_service s))
   | None => true
   end.
@@ -522,8 +552,9 @@ Definition red_of_acc (a : red_acc) : red :=
 Definition red_metrics (recs : list span) : list (str * red) :=
   map (fun kv => (fst kv, red_of_acc (snd kv))) (fold_left acc_step (entry_spans recs) []).
 
-(* specification: s is an entry span of its service: it has no parent id, or no record with that id
-   is in the same service *)
+(* specification: s is an entry span of its service: it has no parent id, or no record of its trace
+   with that span id is in the same service *)
 Definition entry_spec (recs : list span) (s : span) : bool :=
   is_empty (sp_parent s)
-  || negb (existsb (fun p => str_eqb (sp_id p) (sp_parent s) && str_eqb (sp_service p) (sp_service s)) recs).
+  || negb (existsb (fun p => str_eqb (sp_trace p) (sp_trace s) && str_eqb (sp_id p) (sp_parent s)
+                             && str_eqb (sp_service p) (sp_service s)) recs).
